@@ -80,7 +80,7 @@ fn rac_check_doc(text: &[char]) -> Result<usize, String> {
 #[test]
 fn rac_document_tiles() {
     let alpha = ['a', 'i', 'e', '.', ' ', '\n', '\t', '1', '2', 's', 't', 'n', 'd', '"', '\''];
-    let frags = ["i.e.", "e.g.", "N.S.A.", "1st", "22ND", "3rd ", " ", "\"", "etc.", "...", "isn't", "\n\n", "a", "B.", " vs. ", "1980s", "x", "0xFF", "0x10000000000000001 ", "3.5", "7"];
+    let frags = ["i.e.", "e.g.", "N.S.A.", "1st", "22ND", "3rd ", " ", "\"", "etc.", "...", "isn't", "\n\n", "a", "B.", " vs. ", "1980s", "x", "0xFF", "0x10000000000000001 ", "3.5", "7", "82619480106151798 ", "\"q\" ", "(x) "];
     let mut texts: Vec<Vec<char>> = vec![vec![]];
     let mut frontier: Vec<Vec<char>> = vec![vec![]];
     for _ in 0..4 {
@@ -128,7 +128,7 @@ fn rac_document_tiles() {
             }
         }
     }
-    println!("RAC-OK document_tiles cases={} nontrivial={} bound=len<=4-over-15-symbols+<=4-of-21-fragments", cases, nontrivial);
+    println!("RAC-OK document_tiles cases={} nontrivial={} bound=len<=4-over-15-symbols+<=4-of-24-fragments", cases, nontrivial);
 }
 
 // Runtime contract check of Document::condense_indices, whose contract the Verus unit `document`
